@@ -104,6 +104,9 @@ func positions(n, limit int) (pos []int, all bool) {
 		return pos, true
 	}
 	edge := 128
+	if limit < 4*edge {
+		edge = limit / 4
+	}
 	seen := map[int]bool{}
 	add := func(i int) {
 		if i >= 0 && i <= n && !seen[i] {
@@ -207,6 +210,9 @@ func newJob(in *input, sc drv.Script, trace bool, done func(o *drv.Outcome, fram
 	case cserve.KindIOTransformer:
 		if in.ref != nil {
 			ample = uint32(in.ref.OutLen) + 512
+			if !sc.OneShot() && ample > 1<<16 {
+				ample = 1 << 16 // chunked runs: "ample" destination buffers are 64 KiB (doubling when one is not enough)
+			}
 		}
 		return &drv.XformJob{Spec: spec, Script: sc, Ample: ample, OutMode: drv.OutAuto, Trace: trace, MaxCalls: limit, Done: func(j *drv.XformJob) { done(&j.Out, nil) }}
 	case cserve.KindImageDecoder:
@@ -330,8 +336,8 @@ func partB(r *ev.Run, built *cserve.Built) bResult {
 	have := func(pkg string) int { return built.KindOf(pkg) }
 	res.nPkgs = len(built.Table)
 
-	lim := limits{srcSplits: 2049, dstSplits: 1025, bigSrcSplits: 300, bigDstSplits: 120, bytewiseDst: 4096}
-	res.strideNote = "quick: every source split of inputs up to 2048 bytes and every destination split of outputs up to 1024 bytes; beyond that 300 source and 120 destination positions per input - the first and last 128 and an even stride between -, stepped destination scripts for outputs up to 4096, stepped source scripts 1 and 16 only above 4096 bytes"
+	lim := limits{srcSplits: 2049, dstSplits: 1025, bigSrcSplits: 200, bigDstSplits: 80, bytewiseDst: 4096}
+	res.strideNote = "quick: every source split of inputs up to 2048 bytes and every destination split of outputs up to 1024 bytes; beyond that 200 source and 80 destination positions per input - the first and last 64 and an even stride between -, stepped destination scripts for outputs up to 4096, stepped source scripts 1 and 16 only above 4096 bytes"
 	if r.Thorough() {
 		lim = limits{thorough: true, srcSplits: 1 << 17, dstSplits: 4096, bytewiseDst: 1 << 20}
 		res.strideNote = "thorough: every source split of every input; at most 4096 destination split positions per input, 1-byte destination scripts for outputs up to 1 MiB"
@@ -446,11 +452,6 @@ func partB(r *ev.Run, built *cserve.Built) bResult {
 	phase("one_shot_runs")
 
 	// ---- phase 2: every script of every input (plain), in chunks handed out dynamically
-	type chunk struct {
-		in     *input
-		ss     *scriptSet
-		lo, hi int
-	}
 	var chunks []chunk
 	sets := make([]*scriptSet, len(inputs))
 	var totalScripts int64
@@ -471,70 +472,21 @@ func partB(r *ev.Run, built *cserve.Built) bResult {
 	for i, in := range inputs {
 		idxOf[in] = i
 	}
-	runChunks := func(variant string, chunks []chunk, count bool) {
-		var nextChunk atomic.Int64
-		e.pass(variant, 24, func(k int, l *local) func() drv.Job {
-			var cur chunk
-			pos := 0
-			return func() drv.Job {
-				for pos >= cur.hi {
-					if e.stop() {
-						return nil
-					}
-					ci := int(nextChunk.Add(1)) - 1
-					if ci >= len(chunks) {
-						return nil
-					}
-					cur = chunks[ci]
-					pos = cur.lo
+	runChunks := func(variant string, all []chunk, count bool) {
+		// decoders with multi-megabyte objects (bzip2) run in a second, narrow pass: few slots alive at a time
+		for _, big := range []bool{false, true} {
+			var chunks []chunk
+			for _, c := range all {
+				if c.in.bigObject == big {
+					chunks = append(chunks, c)
 				}
-				in, sc := cur.in, cur.ss.list[pos]
-				pos++
-				return newJob(in, sc, false, func(o *drv.Outcome, _ []drv.Frame) {
-					e.evals.Add(1)
-					clause, detail := compare(in, o)
-					if clause == "crash" && in.asanOneShotCrash != "" && variant == cserve.Asan {
-						l.cnt["sanitizer_report_also_in_the_one_shot_run(C03,not reported here)"]++
-						return
-					}
-					if clause == inapplicable {
-						l.h("script_not_applicable(decoder wants a larger destination)", in.pkg+":"+sc.Kind())
-						if count {
-							doneScripts[idxOf[in]].Add(1)
-						}
-						return
-					}
-					if clause != "" {
-						cp := *o
-						// signature = decoder (+ input shape) + violated clause; the script kind and the input are in the text
-						r.Violation(fmt.Sprintf("%s:%s", shapeOf(in), sigClause(in, clause)),
-							fmt.Sprintf("wuffs %s on %s (%d bytes) under script %s %+v: %s", in.pkg, in.name, len(in.data), sc.Kind(), sc, detail),
-							witness{Part: "b", Variant: variant, Name: in.name, Pkg: in.pkg, Kind: in.kind, Quirks: in.quirks, DataHex: hex.EncodeToString(in.data), Script: sc, Clause: clause, OneShot: *in.ref, Chunked: cp, Detail: detail + " " + o.CrashLog})
-						return
-					}
-					if count {
-						doneScripts[idxOf[in]].Add(1)
-						if o.Susp[0]+o.Susp[1]+o.Susp[2] > 0 {
-							e.nontrivial.Add(1)
-						}
-					}
-					l.h("scripts_passed", sc.Kind())
-					l.h("scripts_passed_by_interface", kindName(in.kind))
-					if o.Spurious > 0 {
-						l.cnt["spurious_short_read_on_closed_source(C03,not reported here)"]++
-					}
-					if o.Susp[0] > 0 {
-						l.cnt["runs_with_short_read_resume"]++
-					}
-					if o.Susp[1] > 0 {
-						l.cnt["runs_with_short_write_resume"]++
-					}
-					if o.Susp[2] > 0 {
-						l.cnt["runs_with_short_workbuf_resume"]++
-					}
-				})
 			}
-		})
+			width := 32
+			if big {
+				width = 6
+			}
+			runChunksW(e, r, variant, chunks, count, width, doneScripts, idxOf)
+		}
 	}
 	runChunks(cserve.Plain, chunks, true)
 	phase("scripts_plain")
@@ -548,10 +500,14 @@ func partB(r *ev.Run, built *cserve.Built) bResult {
 		var list []drv.Script
 		for _, sc := range sets[i].list {
 			stepped := sc.SrcStep > 0 || sc.DstStep > 0
-			if !r.Thorough() && len(in.data) > 16<<10 {
-				stepped = false // quick: the sanitizer build re-runs the stepped scripts of inputs up to 16 KiB
+			if !r.Thorough() && (len(in.data) > 4<<10 || in.bigObject) {
+				stepped = false // quick: the sanitizer build re-runs the stepped scripts of inputs up to 4 KiB
 			}
-			if stepped || (len(in.data) <= 64 && len(sc.SrcEnds) == 1) {
+			single := len(in.data) <= 64 && len(sc.SrcEnds) == 1
+			if !r.Thorough() && i%2 == 1 {
+				single = false // quick: the single source splits of every other short input
+			}
+			if stepped || single {
 				list = append(list, sc)
 			}
 		}
@@ -654,4 +610,78 @@ func (e *benv) pass(variant string, width int, mk func(k int, l *local) func() d
 		}(k)
 	}
 	wg.Wait()
+}
+
+type chunk struct {
+	in     *input
+	ss     *scriptSet
+	lo, hi int
+}
+
+// runChunksW runs the scripts of the chunks (handed out dynamically) on every worker's server.
+func runChunksW(e *benv, r *ev.Run, variant string, chunks []chunk, count bool, width int, doneScripts []atomic.Int64, idxOf map[*input]int) {
+	var nextChunk atomic.Int64
+	e.pass(variant, width, func(k int, l *local) func() drv.Job {
+		var cur chunk
+		pos := 0
+		return func() drv.Job {
+			for pos >= cur.hi {
+				if e.stop() {
+					return nil
+				}
+				ci := int(nextChunk.Add(1)) - 1
+				if ci >= len(chunks) {
+					return nil
+				}
+				cur = chunks[ci]
+				pos = cur.lo
+			}
+			in, sc := cur.in, cur.ss.list[pos]
+			pos++
+			return newJob(in, sc, false, func(o *drv.Outcome, _ []drv.Frame) {
+				e.evals.Add(1)
+				clause, detail := compare(in, o)
+				if clause == "crash" && in.asanOneShotCrash != "" && variant == cserve.Asan {
+					l.cnt["sanitizer_report_also_in_the_one_shot_run(C03,not reported here)"]++
+					return
+				}
+				if clause == inapplicable {
+					l.h("script_not_applicable(decoder wants a larger destination)", in.pkg+":"+sc.Kind())
+					if count {
+						doneScripts[idxOf[in]].Add(1)
+					}
+					return
+				}
+				if clause != "" {
+					cp := *o
+					// signature = decoder (+ input shape) + violated clause; the script kind and the input are in the text
+					r.Violation(fmt.Sprintf("%s:%s", shapeOf(in), sigClause(in, clause)),
+						fmt.Sprintf("wuffs %s on %s (%d bytes) under script %s %+v: %s", in.pkg, in.name, len(in.data), sc.Kind(), sc, detail),
+						witness{Part: "b", Variant: variant, Name: in.name, Pkg: in.pkg, Kind: in.kind, Quirks: in.quirks, DataHex: hex.EncodeToString(in.data), Script: sc, Clause: clause, OneShot: *in.ref, Chunked: cp, Detail: detail + " " + o.CrashLog})
+					return
+				}
+				if count {
+					doneScripts[idxOf[in]].Add(1)
+					if o.Susp[0]+o.Susp[1]+o.Susp[2] > 0 {
+						e.nontrivial.Add(1)
+					}
+				}
+				l.h("scripts_passed", sc.Kind())
+				l.cnt["calls_"+variant+":"+in.pkg] += int64(o.Calls)
+				l.h("scripts_passed_by_interface", kindName(in.kind))
+				if o.Spurious > 0 {
+					l.cnt["spurious_short_read_on_closed_source(C03,not reported here)"]++
+				}
+				if o.Susp[0] > 0 {
+					l.cnt["runs_with_short_read_resume"]++
+				}
+				if o.Susp[1] > 0 {
+					l.cnt["runs_with_short_write_resume"]++
+				}
+				if o.Susp[2] > 0 {
+					l.cnt["runs_with_short_workbuf_resume"]++
+				}
+			})
+		}
+	})
 }
